@@ -21,6 +21,8 @@ Findings exercised (tags), reported by the oracle:
                          then rejected by the subregion setter and the whole read raises ValueError
 """
 import itertools
+import pathlib
+import random
 import json
 import math
 import os
@@ -48,6 +50,8 @@ T_SCALAR = "C16-scalar-label-lost"
 T_FIELD = "C16-label-field"
 T_TXTSUB = "C16-txt-subregions"
 T_LEGFAR = "C16-legacy-far-single-point"
+T_STALE = "C16-stale-sidecar"
+DTYPES = {"int32": np.int32, "int64": np.int64, "uint8": np.uint8, "float32": np.float32}
 
 SCALES = [1e-12, 1e-9, 1e-9, 1e-6, 1e-3, 1.0, 1e3, 1e6]
 REPS = ["bin", "txt", "xml", "bin8"]
@@ -112,6 +116,83 @@ def gen_mesh(rng, exact, nmax, nd=3, cells_max=48):
             n.append(k)
         if math.prod(n) <= cells_max:
             return dict(exact=exact, p1=[S(x) for x in p1], p2=[S(x) for x in p2], n=n)
+
+
+def gen_mesh_int(rng, nmax, cells_max=48):
+    """integer corners (handed over as Python ints), cells that may be fractional (1/2, 1/3, 3/4 ...)"""
+    while True:
+        p1, p2, n, dy = [], [], [], True
+        for _ in range(3):
+            k = rng.randint(1, nmax)
+            lo = rng.randint(-20, 20)
+            hi = lo + rng.randint(1, 9)
+            dy = dy and (F(hi - lo, k).denominator & (F(hi - lo, k).denominator - 1)) == 0
+            if rng.random() < 0.4:
+                lo, hi = hi, lo
+            p1.append(F(lo))
+            p2.append(F(hi))
+            n.append(k)
+        if math.prod(n) <= cells_max:
+            return dict(exact=dy, p1=[S(x) for x in p1], p2=[S(x) for x in p2], n=n)
+
+
+def gen_values_dtype(rng, n, nv, dtype):
+    """values that the dtype holds exactly; integer dtypes reach the range where squares overflow the dtype"""
+    cells = math.prod(n)
+    if dtype == "float32":
+        vals = []
+        for _ in range(cells):
+            t = list(rng.choice(PYTH[nv]))
+            rng.shuffle(t)
+            k = rng.randint(1, 5)
+            vals += [F(k * x * rng.choice([1, -1])) for x in t]
+        return True, [S(v) for v in vals]
+    lim = {"int32": 60000, "int64": 3 * 10 ** 9, "uint8": 255}[dtype]
+    lo = 0 if dtype == "uint8" else -lim
+    return False, [S(F(rng.choice([rng.randint(lo, lim), lim, lo, rng.randint(-9, 9) if lo else rng.randint(0, 9)])))
+                   for _ in range(cells * nv)]
+
+
+OPS = ["translate", "scale", "region-translate", "region-scale", "rot", "write-cell", "write-all", "valid-cell",
+       "valid-set"]
+
+
+def gen_ops(rng):
+    ops = []
+    for kind in rng.sample(OPS, rng.randint(1, 4)):
+        if kind in ("translate", "region-translate"):
+            ops.append([kind, [S(F(rng.randint(-40, 40), 8)) for _ in range(3)]])
+        elif kind in ("scale", "region-scale"):
+            ops.append([kind, [S(F(rng.choice([1, 2, 3, -1, -2, 5]), rng.choice([1, 2, 4]))) for _ in range(3)]])
+        elif kind == "rot":
+            a, b = rng.sample([0, 1, 2], 2)
+            ops.append([kind, a, b, rng.choice([1, 3, -1, 2, 5])])
+        else:
+            ops.append([kind])
+    return ops
+
+
+def variants(rng, c, f):
+    """argument-type / representation variants sprinkled over the regular streams"""
+    if rng.random() < 0.25:
+        dt = rng.choice(list(DTYPES))
+        f["dtype"] = dt
+        f["pyth"], f["vals"] = gen_values_dtype(rng, f["mesh"]["n"], f["nv"], dt)
+    if rng.random() < 0.2 and len(f["mesh"]["n"]) == 3:
+        f["mesh"] = gen_mesh_int(rng, max(f["mesh"]["n"]), cells_max=math.prod(f["mesh"]["n"]) + 12)
+        cells = math.prod(f["mesh"]["n"])
+        if f.get("dtype"):
+            f["pyth"], f["vals"] = gen_values_dtype(rng, f["mesh"]["n"], f["nv"], f["dtype"])
+        else:
+            f["pyth"], f["vals"] = gen_values(rng, f["mesh"]["n"], f["nv"], True)
+        f["valid"] = gen_valid(rng, cells)
+        c["intcorners"] = True
+        if "probes" in c:
+            c["probes"] = gen_probes(rng, f["mesh"], len(c["probes"]))
+        if "subs" in c and c["subs"]:
+            c["subs"] = gen_subs(rng, f["mesh"])
+    c["pathlib"] = rng.random() < 0.5
+    return c
 
 
 def gen_values(rng, n, nv, exact):
@@ -241,7 +322,13 @@ def generate(rng, tier):
     for k in range(70 if quick else 500):
         exact = k % 3 != 2
         f = gen_field(rng, exact, nmax, cells_max=cmax)
-        cases.append(dict(kind="grid", field=f, probes=gen_probes(rng, f["mesh"], 8 if quick else 10)))
+        cases.append(variants(rng, dict(kind="grid", field=f, probes=gen_probes(rng, f["mesh"], 8 if quick else 10)), f))
+    # used first, then changed in place through public calls, then converted
+    for k in range(24 if quick else 150):
+        f = gen_field(rng, True, nmax, cells_max=cmax, nv=rng.choice([1, 1, 3, 3, 2, 4]))
+        if f["nv"] == 3 and rng.random() < 0.7:
+            f["vdims"] = None               # default labels carry the mapping rotate90 needs
+        cases.append(dict(kind="grid", field=f, probes=[], ops=gen_ops(rng), pseed=rng.randrange(10 ** 6)))
     # every axis permutation of a strongly anisotropic mesh, all component counts
     for perm in itertools.permutations([1, 2, 3]):
         for nv in (1, 2, 3, 4):
@@ -261,9 +348,26 @@ def generate(rng, tier):
     for k in range(110 if quick else 800):
         exact = k % 3 != 2
         f = gen_field(rng, exact, nmax, cells_max=cmax)
-        rep = REPS[k % 4] if rng.random() < 0.93 else rng.choice(["bin4", "ascii", "", "XML"])
+        rep = (REPS + [None])[k % 5] if rng.random() < 0.93 else rng.choice(["bin4", "ascii", "", "XML"])
         subs = gen_subs(rng, f["mesh"]) if rng.random() < 0.45 else []
-        cases.append(dict(kind="round", field=f, rep=rep, subs=subs, save=rng.random() < 0.85))
+        cases.append(variants(rng, dict(kind="round", field=f, rep=rep, subs=subs, save=rng.random() < 0.85), f))
+    for k in range(24 if quick else 150):
+        f = gen_field(rng, True, nmax, cells_max=cmax, nv=rng.choice([1, 1, 3, 3, 2, 4]))
+        if f["nv"] == 3 and rng.random() < 0.7:
+            f["vdims"] = None
+        subs = gen_subs(rng, f["mesh"]) if rng.random() < 0.5 else []
+        cases.append(dict(kind="round", field=f, rep=(REPS + [None])[k % 5], subs=subs, save=True, ops=gen_ops(rng),
+                          pseed=rng.randrange(10 ** 6), pathlib=rng.random() < 0.5))
+    # a side-car left at the path by an earlier save (small tagged stream, known finding C16-stale-sidecar)
+    for k in range(5 if quick else 20):
+        f = gen_field(rng, True, nmax, cells_max=cmax)
+        if f["vdims"] and "field" in f["vdims"]:
+            f["vdims"] = None
+        if f["nv"] == 1:
+            f["vdims"] = None
+        own = gen_subs(rng, f["mesh"]) if k % 3 == 2 else []
+        cases.append(dict(kind="round", field=f, rep=["bin", "xml", "txt"][k % 3], subs=own, save=(k % 2 == 0) or not own,
+                          stale=gen_subs(rng, f["mesh"])))
     # --- reader alone, on grids written by the bare VTK writers
     for k in range(50 if quick else 300):
         cases.append(gen_read(rng, nmax))
@@ -464,14 +568,110 @@ def legacy_text(coords, vec, rows, trailing_newline=True):
 
 
 # ------------------------------------------------------------------ building the field
-def build(fd, subs=()):
+def corner(x):
+    """integer corners are handed over as Python ints (integer-typed region)"""
+    q = F(x)
+    return int(q) if q.denominator == 1 and abs(q) < 2 ** 40 else float(q)
+
+
+def build(fd, subs=(), intcorners=False):
     m = fd["mesh"]
-    region = df.Region(p1=fls(m["p1"]), p2=fls(m["p2"]))
-    sr = {nm: df.Region(p1=fls(a), p2=fls(b)) for nm, a, b in subs}
+    cv = (lambda xs: [corner(x) for x in xs]) if intcorners else fls
+    region = df.Region(p1=cv(m["p1"]), p2=cv(m["p2"]))
+    sr = {nm: df.Region(p1=cv(a), p2=cv(b)) for nm, a, b in subs}     # insertion order = order of the case
     mesh = df.Mesh(region=region, n=m["n"], subregions=sr)
-    arr = np.array(fls(fd["vals"]), dtype=float).reshape(*m["n"], fd["nv"])
+    dt = DTYPES.get(fd.get("dtype"), float)
+    arr = np.array(fls(fd["vals"]), dtype=float).reshape(*m["n"], fd["nv"]).astype(dt)
     valid = np.array(fd["valid"], dtype=bool).reshape(*m["n"])
+    if fd.get("dtype"):
+        return df.Field(mesh, nvdim=fd["nv"], value=arr, vdims=fd["vdims"], valid=valid, dtype=dt)
     return df.Field(mesh, nvdim=fd["nv"], value=arr, vdims=fd["vdims"], valid=valid)
+
+
+def snapshot(f):
+    """everything a read-only operation must leave alone"""
+    return dict(pmin=f.mesh.region.pmin.tolist(), pmax=f.mesh.region.pmax.tolist(), n=f.mesh.n.tolist(),
+                array=f.array.copy(), adt=str(f.array.dtype), valid=f.valid.copy(), vdt=str(f.valid.dtype),
+                vdims=None if f.vdims is None else list(f.vdims), mapping=dict(f.vdim_mapping),
+                subs=[(k, v.pmin.tolist(), v.pmax.tolist()) for k, v in f.mesh.subregions.items()],
+                ids=(id(f.mesh), id(f.mesh.region), id(f.array), id(f.valid)))
+
+
+def same_snapshot(a, b):
+    return (a["pmin"] == b["pmin"] and a["pmax"] == b["pmax"] and a["n"] == b["n"] and a["adt"] == b["adt"]
+            and a["vdt"] == b["vdt"] and np.array_equal(a["array"], b["array"]) and np.array_equal(a["valid"], b["valid"])
+            and a["vdims"] == b["vdims"] and a["mapping"] == b["mapping"] and a["subs"] == b["subs"]
+            and a["ids"] == b["ids"])
+
+
+def use_then_change(f, ops, rng, tmpdir):
+    """(1) use the object (derived quantities, the operations under test, a sibling field of equal
+    shape), (2) change it in place through public calls; returns the labels of the steps that ran"""
+    _ = (f.mesh.cell, f.mesh.dV, f.mesh.index2point((0, 0, 0)), f.mesh.point2index(f.mesh.region.center),
+         len(list(f.mesh)), f.norm.array.sum(), f.mesh.vertices, f.mesh.cells)
+    f.to_vtk()
+    f.to_file(os.path.join(tmpdir, "used.vtk"))
+    sib = df.Field(f.mesh, nvdim=f.nvdim, value=np.full((*f.mesh.n, f.nvdim), 3.0), vdims=f.vdims)
+    sib.to_vtk()
+    sib.to_file(os.path.join(tmpdir, "sib.vtk"), representation="txt")
+    ran = []
+    for op in ops:
+        kind = op[0]
+        if kind == "translate":
+            st, _ = attempt(lambda: f.mesh.translate(fls(op[1]), inplace=True))
+        elif kind == "scale":
+            st, _ = attempt(lambda: f.mesh.scale(fls(op[1]), inplace=True))
+        elif kind == "region-translate":
+            st = "skip" if f.mesh.subregions else attempt(lambda: f.mesh.region.translate(fls(op[1]), inplace=True))[0]
+        elif kind == "region-scale":
+            st = "skip" if f.mesh.subregions else attempt(lambda: f.mesh.region.scale(fls(op[1]), inplace=True))[0]
+        elif kind == "rot":
+            dims = f.mesh.region.dims
+            st, _ = attempt(lambda: f.rotate90(dims[op[1]], dims[op[2]], k=op[3], inplace=True))
+        elif kind == "write-cell":
+            idx = tuple(rng.randrange(k) for k in f.mesh.n)
+            f.array[idx] = [float(rng.randint(-9, 9)) for _ in range(f.nvdim)]
+            st = "ok"
+        elif kind == "write-all":
+            f.array[...] = np.array([rng.randint(-50, 50) for _ in range(f.array.size)], dtype=float).reshape(f.array.shape)
+            st = "ok"
+        elif kind == "valid-cell":
+            idx = tuple(rng.randrange(k) for k in f.mesh.n)
+            f.valid[idx] = not f.valid[idx]
+            st = "ok"
+        elif kind == "valid-set":
+            f.valid = np.array([rng.random() < 0.5 for _ in range(f.valid.size)]).reshape(f.valid.shape)
+            st = "ok"
+        else:
+            raise ValueError(kind)
+        ran.append(f"{kind}:{st}")
+    return ran
+
+
+def describe(f, fd):
+    """the case as the field reports it AFTER the in-place history"""
+    n = [int(x) for x in f.mesh.n]
+    return dict(mesh=dict(exact=False, p1=[S(float(x)) for x in f.mesh.region.pmin], p2=[S(float(x)) for x in f.mesh.region.pmax],
+                          n=n),
+                nv=int(f.nvdim), vdims=fd["vdims"], pyth=False,
+                vals=[S(float(x)) for x in np.asarray(f.array, dtype=float).reshape(-1)],
+                valid=[bool(x) for x in f.valid.reshape(-1)], dtype=fd.get("dtype"))
+
+
+def subs_of(f):
+    return [[k, [S(float(x)) for x in v.pmin], [S(float(x)) for x in v.pmax]] for k, v in f.mesh.subregions.items()]
+
+
+def prepare(c, subs, tmpdir):
+    """build the field of a case; with an 'ops' history: use it, change it in place, re-describe it"""
+    fd = c["field"]
+    f = build(fd, subs, intcorners=c.get("intcorners", False))
+    if not c.get("ops"):
+        return f, fd, subs, []
+    rng = random.Random(c.get("pseed", 0))
+    ran = use_then_change(f, c["ops"], rng, tmpdir)
+    fd2 = describe(f, fd)
+    return f, fd2, subs_of(f), ran
 
 
 # ------------------------------------------------------------------ Gallina encoding
@@ -538,7 +738,13 @@ def run_grid(c):
     rec = dict(kind="grid", case=c, oracle=[], tags=[])
     if fd["vdims"] and "field" in fd["vdims"]:
         rec["tags"].append(T_FIELD)
-    f = build(fd)
+    tmpd = newdir()
+    f, fd, _, ran = prepare(c, [], tmpd)
+    shutil.rmtree(tmpd, ignore_errors=True)
+    m = fd["mesh"]
+    n = m["n"]
+    nv = fd["nv"]
+    before = snapshot(f)
     st, rg = attempt(f.to_vtk)
     nd = len(n)
     head = f"CGrid {g.b(m['exact'])} {g.b(fd['pyth'])} {c_field_in(fd, f)}"
@@ -550,8 +756,14 @@ def run_grid(c):
     if nd != 3:
         rec["oracle"].append("non-3d-accepted")
     o = grid_obs(rg)
+    if not same_snapshot(before, snapshot(f)):
+        rec["oracle"].append("operand-changed")
+    st2, rg2 = attempt(f.to_vtk)
+    if st2 != "ok" or grid_obs(rg2) != o:
+        rec["oracle"].append("second-call-differs")
+    plist = c["probes"] if not c.get("ops") else gen_probes(random.Random(c.get("pseed", 0) + 1), m, 6)
     probes = []
-    for cls, p in c["probes"]:
+    for cls, p in plist:
         a, b = find_cells(rg, fls(p))
         probes.append([cls, p, a, b])
     # ---- oracle: the property text on the implementation's grid
@@ -617,7 +829,8 @@ def run_grid(c):
     rec.update(obs=jsafe(dict(grid=o, probes=probes)),
                coq=f"{head} (Some {c_grid(o)}) {cprobes}",
                key=f"grid/{m['exact']}/{tuple(n)}/{nv}/{fd['vdims'] is None}/{fd['pyth']}/"
-                   f"{''.join(sorted(set(p[0][0] for p in probes)))}",
+                   f"{''.join(sorted(set(p[0][0] for p in probes)))}/{fd.get('dtype')}/{c.get('intcorners', False)}/"
+                   f"{','.join(ran)}",
                size=sum(n) + nv)
     return rec
 
@@ -635,12 +848,29 @@ def run_round(c):
     if nv == 1 and fd["vdims"]:
         rec["tags"].append(T_SCALAR)
     subs = c["subs"] if nd == 3 else []
-    f = build(fd, subs)
     d = newdir()
-    path = os.path.join(d, "f.vtk")
-    st_w, e_w = attempt(lambda: f.to_file(path, representation=rep, save_subregions=c["save"]))
+    f, fd, subs, ran = prepare(c, subs, d)
+    m = fd["mesh"]
+    n = m["n"]
+    nv = fd["nv"]
+    path_s = os.path.join(d, "f.vtk")
+    # paths as str / pathlib.Path (the reader gets the other type)
+    path = pathlib.Path(path_s) if c.get("pathlib") else path_s
+    rpath = path_s if c.get("pathlib") else pathlib.Path(path_s)
+    stale = c.get("stale") if nd == 3 and not c.get("ops") else None
+    if stale is not None:
+        # an earlier save of another field (same mesh, with subregions) at the same path
+        build(dict(fd, nv=1, vdims=None, vals=fd["vals"][::nv], dtype=None), stale).to_file(path_s)
+        if not (c["save"] and subs):
+            rec["tags"].append(T_STALE)
+    kw = dict(save_subregions=c["save"])
+    if rep is not None:
+        kw["representation"] = rep
+    rep = "bin8" if rep is None else rep          # the documented default
+    before = snapshot(f)
+    st_w, e_w = attempt(lambda: f.to_file(path, **kw))
     head = (f"CRound {g.b(m['exact'])} {g.b(fd['pyth'])} {g.s(rep)} {c_field_in(fd, f)} {c_subs(subs)} "
-            f"{g.b(c['save'])}")
+            f"{g.b(c['save'])} {g.opt(stale, c_subs)}")
     known_rep = rep in ("bin", "bin8", "txt", "xml")
     if st_w != "ok":
         if nd == 3 and known_rep:
@@ -651,11 +881,28 @@ def run_round(c):
         return rec
     if nd != 3 or not known_rep:
         rec["oracle"].append("bad-write-accepted")
-    fo = bare_read(path)
-    side_exists = os.path.exists(path + ".subregions.json")
-    if side_exists != bool(c["save"] and subs):
+    fo = bare_read(path_s)
+    with open(path_s, "rb") as fh:
+        head_bytes = fh.read(200)
+    kind_seen = "xml" if head_bytes.lstrip().startswith(b"<") else \
+        (head_bytes.split(b"\n") + [b"", b"", b""])[2].strip().decode("ascii", "replace")
+    kind_want = {"bin": "BINARY", "bin8": "BINARY", "txt": "ASCII", "xml": "xml"}.get(rep)
+    if kind_want is not None and kind_seen != kind_want:
+        rec["oracle"].append("representation-kind")
+    side_exists = os.path.exists(path_s + ".subregions.json")
+    if stale is None and side_exists != bool(c["save"] and subs):
         rec["oracle"].append("side-car-presence")
-    st_r, r = attempt(lambda: df.Field.from_file(path))
+    if not same_snapshot(before, snapshot(f)):
+        rec["oracle"].append("operand-changed")
+    # the same call again, elsewhere: same file content
+    d2 = newdir()
+    st_w2, _ = attempt(lambda: f.to_file(os.path.join(d2, "f.vtk"), **kw))
+    if st_w2 != "ok" or bare_read(os.path.join(d2, "f.vtk")) != fo:
+        rec["oracle"].append("second-call-differs")
+    shutil.rmtree(d2, ignore_errors=True)
+    st_r, r = attempt(lambda: df.Field.from_file(rpath))
+    if not same_snapshot(before, snapshot(f)):
+        rec["oracle"].append("operand-changed")
     txt = rep == "txt"
     verts = [float(v) for a in range(3) for v in np.asarray(getattr(f.mesh.vertices, f.mesh.region.dims[a]))] \
         if nd == 3 else []
@@ -687,11 +934,13 @@ def run_round(c):
             rec["oracle"].append("round-trip-labels")
         want_subs = [[nm, [F(x) for x in a], [F(x) for x in b]] for nm, a, b in subs] if c["save"] else []
         got_subs = [[nm, a, b] for nm, a, b in ro["subs"]]
-        if sorted(got_subs) != sorted(want_subs):
+        if got_subs != want_subs:          # ordered name -> box list (insertion order is part of a dict)
             rec["oracle"].append("round-trip-subregions")
     rec["oracle"] = sorted(set(rec["oracle"]))
     rec.update(obs=jsafe(obs), coq=f"{head} (Some {c_grid(fo)}) {cobs}",
-               key=f"round/{m['exact']}/{rep}/{tuple(n)}/{nv}/{fd['vdims'] is None}/{len(subs)}/{c['save']}/{st_r}",
+               key=f"round/{m['exact']}/{c['rep']}/{tuple(n)}/{nv}/{fd['vdims'] is None}/{len(subs)}/{c['save']}/{st_r}/"
+                   f"{fd.get('dtype')}/{c.get('intcorners', False)}/{c.get('pathlib', False)}/{stale is not None}/"
+                   f"{','.join(ran)}",
                size=sum(n) + nv + len(subs))
     shutil.rmtree(d, ignore_errors=True)
     return rec
